@@ -970,11 +970,11 @@ impl BitSet {
 //@at after "let zero: BitPage = BitPage::new_zeroes();"
         proof { assert(0u32 & 511 == 0) by(bit_vector); }
 //@end
-    // ASSUMED (iterator adapters outside Verus' subset; a bounded Kani harness checks page identity): compaction moves the pages
+    // PROVED in unit U14.2c against exactly this contract (there the enumerate().take() iterator is a stub with std semantics); assumed here: compaction moves the pages
     // of the first new_len map entries to the indices 0..new_len, keeping each entry's major value and page contents
     #[verifier::external_body]
     fn compact(&mut self, new_len: usize)
-        requires new_len <= old(self).page_map@.len(),
+        requires new_len <= old(self).page_map@.len(), old(self).pages@.len() <= 0x8000_0000, new_len <= 0x8000_0000,
             forall|i: int| 0 <= i < new_len ==> (#[trigger] old(self).page_map@[i]).index < old(self).pages@.len(),
             forall|i: int, j: int| 0 <= i < j < new_len ==> (#[trigger] old(self).page_map@[i]).index != (#[trigger] old(self).page_map@[j]).index,
         ensures final(self).page_map@.len() == old(self).page_map@.len(), final(self).pages@.len() == old(self).pages@.len(),
